@@ -121,6 +121,16 @@ func AddStandardFilters(fd FilterDictionary) { //nolint: gocyclo
 			}
 			return a / b, nil
 		}
+		divUint := func(a int64, b uint64) (int64, error) {
+			if b > math.MaxInt64 {
+				// |a| < b, except for the one pair whose quotient is -1
+				if a == math.MinInt64 && b == 1<<63 {
+					return -1, nil
+				}
+				return 0, nil
+			}
+			return divInt(a, int64(b))
+		}
 		switch q := b.(type) {
 		case int:
 			return divInt(int64(a), int64(q))
@@ -132,12 +142,16 @@ func AddStandardFilters(fd FilterDictionary) { //nolint: gocyclo
 			return divInt(int64(a), int64(q))
 		case int64:
 			return divInt(int64(a), q)
+		case uint:
+			return divUint(int64(a), uint64(q))
 		case uint8:
 			return divInt(int64(a), int64(q))
 		case uint16:
 			return divInt(int64(a), int64(q))
 		case uint32:
 			return divInt(int64(a), int64(q))
+		case uint64:
+			return divUint(int64(a), q)
 		case float32:
 			return divFloat(a, float64(q))
 		case float64:
